@@ -512,11 +512,13 @@ impl<'tcx> Interp<'tcx> {
             }
             if ok {
                 if let Some(entries) = self.pmemo.get(&inst) {
-                    for (k, rets, viol) in entries {
+                    for (k, rets, viol, prb, rw) in entries {
                         if *k == key {
                             self.pmemo_hits += 1;
-                            let (rets, viol) = (rets.clone(), viol.clone());
+                            let (rets, viol, prb, rw) = (rets.clone(), viol.clone(), prb.clone(), rw.clone());
                             self.replay_violations(&viol);
+                            self.probes.extend(prb);
+                            self.reject_witness.extend(rw);
                             return Ok(rets.into_iter().map(|v| (st.clone(), v)).collect());
                         }
                     }
@@ -524,6 +526,8 @@ impl<'tcx> Interp<'tcx> {
                 pkey = Some(key);
             }
         }
+        let probes_before = self.probes.len();
+        let rw_before_memo = self.reject_witness.len();
         let pviol_before: std::collections::BTreeSet<String> =
             if pkey.is_some() { self.sites.iter().filter(|(_, s)| s.violated && s.roots.contains(&self.cur_root)).map(|(k, _)| k.clone()).collect() } else { Default::default() };
         let entering_region = bi.scalar && self.region_depth == 0;
@@ -673,7 +677,9 @@ impl<'tcx> Interp<'tcx> {
                 let viol = self.violations_since(&pviol_before, &bi.short);
                 let e = self.pmemo.entry(inst).or_default();
                 if e.len() < 64 {
-                    e.push((k, out.iter().map(|o| o.1.clone()).collect(), viol));
+                    let prb: Vec<Probe> = self.probes[probes_before.min(self.probes.len())..].iter().take(96).cloned().collect();
+                    let rw: Vec<Val> = self.reject_witness[rw_before_memo.min(self.reject_witness.len())..].to_vec();
+                    e.push((k, out.iter().map(|o| o.1.clone()).collect(), viol, prb, rw));
                 }
             }
         }
